@@ -755,7 +755,7 @@ where
             let initial_bits = shifted_mantissa.leading_zeros();
             shifted_mantissa += as_cast((above_halfway || (is_odd & is_halfway)) as u32);
             let final_bits = shifted_mantissa.leading_zeros();
-            mantissa_bits += (final_bits - initial_bits) as usize;
+            mantissa_bits += (initial_bits - final_bits) as usize;
         }
     }
 
